@@ -176,6 +176,8 @@ fn mean_ci<F: Fl>(case: &Value) -> Value {
             let out = outcome(|| -> Result<Interval<F>, CIError> {
                 match style {
                     "ci" => $T::<F>::ci(conf, &a),
+                    // the one-shot call on a container whose by-reference iterator has an inexact size hint (0, Some(more))
+                    "ci_sparse" => $T::<F>::ci(conf, &sparse_of(&a, 3)),
                     "ops" => <$T<F> as StatisticsOps<F>>::ci(conf, &a),
                     "meanci" => <$T<F> as MeanCI<F>>::ci(conf, &a),
                     "from_iter" => { let s = $T::<F>::from_iter(&a)?; reg = Some(s); s.ci_mean(conf) }
@@ -265,6 +267,8 @@ fn mean_ci<F: Fl>(case: &Value) -> Value {
             let out = outcome(|| -> Result<Interval<F>, CIError> {
                 match style {
                     "ci" => Paired::<F>::ci(conf, &a, &b),
+                    // containers with inexact size hints whose upper bounds DIFFER although the samples are equally long
+                    "ci_sparse" => Paired::<F>::ci(conf, &sparse_of(&a, 1), &sparse_of(&b, 3)),
                     "extend" => { let mut s = Paired::default(); let r = s.extend(&a, &b); reg = Some(s.clone()); r?; s.ci_mean(conf) }
                     "extend_tuple" => {
                         let t: Vec<(F, F)> = a.iter().cloned().zip(b.iter().cloned()).collect();
@@ -296,6 +300,7 @@ fn mean_ci<F: Fl>(case: &Value) -> Value {
             let out = outcome(|| -> Result<Interval<F>, CIError> {
                 match style {
                     "ci" => Unpaired::<F>::ci(conf, &a, &b),
+                    "ci_sparse" => Unpaired::<F>::ci(conf, &sparse_of(&a, 2), &sparse_of(&b, 0)),
                     "extend" => { let mut s = Unpaired::default(); s.extend(&a, &b)?; reg = Some(s.clone()); s.ci_mean(conf) }
                     "from_iter" => { let s = Unpaired::from_iter(&a, &b)?; reg = Some(s.clone()); s.ci_mean(conf) }
                     "extend_a_b" => { let mut s = Unpaired::default(); s.extend_b(&b)?; s.extend_a(&a)?; reg = Some(s.clone()); s.ci_mean(conf) }
@@ -619,6 +624,15 @@ fn enc_iv_pos<T: PartialOrd + Clone>(r: Result<Interval<T>, CIError>, pos: &dyn 
 
 /// a container with holes: iterating a reference yields the present elements, size hint (0, Some(len))
 struct Sparse<T>(Vec<Option<T>>);
+/// the sample `a` with a hole after every `every`-th element (`every` = 0: no holes, the hint is still inexact)
+fn sparse_of<T: Clone>(a: &[T], every: usize) -> Sparse<T> {
+    let mut v = Vec::with_capacity(a.len() * 2);
+    for (i, x) in a.iter().enumerate() {
+        v.push(Some(x.clone()));
+        if every > 0 && (i + 1) % every == 0 { v.push(None); }
+    }
+    Sparse(v)
+}
 impl<'a, T> IntoIterator for &'a Sparse<T> {
     type Item = &'a T;
     type IntoIter = std::iter::Flatten<std::slice::Iter<'a, Option<T>>>;
